@@ -241,6 +241,13 @@ func AddAugments(t *rapid.T, set *ymodel.Set, min, max int) map[string]int {
 		tg := cands[rapid.IntRange(0, len(cands)-1).Draw(t, "target")]
 		augCounter++
 		a := &ymodel.Augment{Path: tg.Path}
+		if rapid.IntRange(0, 4).Draw(t, "own-steps-without-prefix") == 0 {
+			// a step without prefix names a node of the augmenting module's own namespace
+			if p := strings.ReplaceAll(tg.Path, "/"+from.Prefix+":", "/"); p != tg.Path {
+				a.Path = p
+				labels["augment/unprefixed-own-steps"]++
+			}
+		}
 		tag := fmt.Sprintf("a%d%s", i+1, strings.ReplaceAll(from.Name, "-", ""))
 		a.Nodes = augContent(t, set, from, tg, tag)
 		if wouldCollide(set, from, a, tg) {
